@@ -21,7 +21,7 @@ type applyCase struct {
 	RowNums  string        `json:"row_nums,omitempty"`
 }
 
-var c06VariantNames = append(append([]string{}, model.ShapeNames...), "aggregated", "selected", "copied", "zero-rows", "one-row", "one-row-of-a-sorted-frame", "70-rows", "70-rows-sparseperm")
+var c06VariantNames = append(append([]string{}, model.ShapeNames...), "aggregated", "selected", "copied", "zero-rows", "one-row", "one-row-of-a-sorted-frame", "70-rows", "70-rows-sparseperm", "runes-outside-the-basic-plane")
 
 func c06Base() model.Frame {
 	N := model.Null()
@@ -75,6 +75,14 @@ func c06Variants() []c06Variant {
 	big := base.Rows(c07BigRows())
 	add(model.Build(big))
 	add(model.BuildShape(big, model.ShapeSparsePerm))
+	// the string column holds basic-plane runes followed by runes outside the basic plane with the same low 16 bits
+	uni := base.Clone()
+	for ci := range uni.Cols {
+		if uni.Cols[ci].Name == "s" {
+			uni.Cols[ci].Cells = []model.Cell{model.S("\u0448\u0449\u044f"), model.Null(), model.S("\U00010428\U00010429"), model.S("x\U0001044Fy")}
+		}
+	}
+	add(model.Build(uni))
 	return c06vars
 }
 
